@@ -120,6 +120,9 @@ def run(ctx):
             k = "1e%d" % math.floor(math.log10(abs(angle)))
             fe_by_decade[k] = max(fe_by_decade.get(k, 0.0), fe)
     ctx.log(f"{len(gen)} calls run through the oracle")
+    # threshold tol / np.pi (float) against tol / pi: relative excess of thr * pi over tol
+    import numpy as np
+    thr_rel = max((float(F(t / np.pi) * ac.PI / F(t) - 1) for t in {c[1] for c in gen}), default=0.0)
 
     # ---- builder route: rot_X/Y/Z(angle=...) -> bytes -> decoded instructions
     bcases = [] if stats.get("timeouts", 0) >= 3 else ac.gen_builder_cases(ctx.rng, 300 if quick else 6000)
@@ -204,7 +207,8 @@ def run(ctx):
             what="error of rest=(angle % 2pi)/pi (float, as in the code) against 80-digit arithmetic, radians on the circle",
             max_error_turns_le_2=fe_max, argmax=fe_arg, allowance_2_pow_minus_49=float(ac.FE_ALLOW),
             max_error_by_decade_of_abs_angle=dict(sorted(fe_by_decade.items())),
-            max_excess_over_tol_on_passing_cases=excess_max, argmax_excess=excess_arg)))
+            max_excess_over_tol_on_passing_cases=excess_max, argmax_excess=excess_arg,
+            max_relative_excess_of_float_threshold_times_pi_over_tol=thr_rel)))
     ctx.trusted += [
         "gen/angle_consts.py (reads IMMEDIATE_BITS and the ctypes widths of the rotation immediates)",
         "harness/angle_common.py: oracle in exact rationals with an 80-digit rational for pi; case-file emission; parsing of the printed failing list",
